@@ -2,7 +2,7 @@
    Only statements, each closed by `exact <lemma>` and followed by Print Assumptions.
    (harness/core.py reads the Print Assumptions output in this order.) *)
 From Coq Require Import ZArith List Bool String Ascii Permutation.
-From Verif Require Import Lib.Dyadic Model.C10_Attr Model.C10_File Proofs.C10_Attr Proofs.C10_File Proofs.C10_FileRT Proofs.C10_FileTop Model.C10_Session Proofs.C10_Session Model.C10_Graph Proofs.C10_Graph.
+From Verif Require Import Lib.Dyadic Model.C10_Attr Model.C10_File Proofs.C10_Attr Proofs.C10_File Proofs.C10_FileRT Proofs.C10_FileTop Model.C10_Session Proofs.C10_Session Model.C10_Graph Proofs.C10_Graph Proofs.C10_GraphRT.
 Import ListNotations.
 Open Scope Z_scope.
 
@@ -130,6 +130,36 @@ Print Assumptions c10_meta_nan_file_refuted.
 
 (* ---------------------------------------------------------------- (d) the full object graph (Model/C10_Graph.v) *)
 
+(* THE round trip for the full object graph, specification: for every well-formed dataset graph (gwf: tree of collections,
+   distinct paths and keys, closed object table, HDF5 names unique), EVERY write level and every ACYCLIC reference graph -
+   private objects shared between fields, private objects with references of their own (to fields or private objects),
+   references to fields that the level omits (no `closed` hypothesis), forward references read on demand through group
+   paths - the file can be written, can be read, and what is read is EXACTLY the expected dataset: the fields at or above
+   the level, in order, with kind, level, unit, multiplier; every object unfolded, where a reference to the object of a
+   written field is that field and any other reference is the referenced object itself (equal in value) *)
+Theorem graph_roundtrip : forall g lvl rank, gwf g = true -> granked rank g ->
+  exists f, write2 false g lvl = Some f /\ read2 false f = Some (expected lvl g).
+Proof. exact graph_roundtrip_lemma. Qed.
+Print Assumptions graph_roundtrip.
+
+(* identity: the reference of a written field to a written field holds THE object number of that field *)
+Theorem graph_reference_identity : forall g lvl rank f st fl, gwf g = true -> granked rank g ->
+  write2 false g lvl = Some f -> read_fields2 false f st02 (f2_groups f) = Some (st, fl) ->
+  forall p nd a q, klookup (KF p) (g_objs g) = Some nd -> written_leaf lvl (g_fields g) p = true ->
+    In (a, KF q) (n_refs nd) -> written_leaf lvl (g_fields g) q = true ->
+  exists k v u m idp k' v' u' m' idq o,
+    In (p, RLeaf2 k v u m idp) fl /\ In (q, RLeaf2 k' v' u' m' idq) fl /\
+    nlookup idp (heap2 st) = Some o /\ In (a, idq) (r_refs o).
+Proof. exact graph_reference_identity_lemma. Qed.
+Print Assumptions graph_reference_identity.
+
+Theorem graph_field_objects_distinct : forall g lvl rank f st fl, gwf g = true -> granked rank g ->
+  write2 false g lvl = Some f -> read_fields2 false f st02 (f2_groups f) = Some (st, fl) ->
+  forall p1 k1 v1 u1 m1 id1 p2 k2 v2 u2 m2 id2,
+  In (p1, RLeaf2 k1 v1 u1 m1 id1) fl -> In (p2, RLeaf2 k2 v2 u2 m2 id2) fl -> p1 <> p2 -> id1 <> id2.
+Proof. exact graph_field_ids_distinct_lemma. Qed.
+Print Assumptions graph_field_objects_distinct.
+
 (* naming embedded attribute objects by the bare attribute name (the code before fixes/C10-5.diff) confuses a shared
    embedded object with another field's embedded object of the same attribute; group paths (specification) do not *)
 Theorem c10_bare_names_refuted :
@@ -177,3 +207,7 @@ Proof.
   - destruct Hr as [Hr|[]]. inversion Hr; subst. cbn. auto.
   - destruct Hr.
 Qed.
+
+(* non-vacuity of graph_roundtrip: shared private object with a private object of its own, reference to an omitted field *)
+Example graph_roundtrip_nonvacuous : gwf ex_g = true /\ granked ex_rank ex_g /\ gwf ex_g2 = true /\ granked ex_rank2 ex_g2.
+Proof. split; [exact ex_gwf|]. split; [exact ex_granked|]. split; [exact ex2_gwf|exact ex2_granked]. Qed.
